@@ -47,6 +47,9 @@ def hash_node(
             names = [child.arg]
         elif isinstance(child, (ast.FunctionDef, ast.AsyncFunctionDef)):
             names = [child.name]
+        elif isinstance(child, ast.Constant):
+            # Constants of all types, and 1 is not True
+            things_to_hash.append((type(child.value).__name__, repr(child.value), child.kind))
         else:
             things_to_hash.extend(
                 (key, value)
